@@ -96,7 +96,9 @@ async fn startup_udp<const N: usize>(config: &ServerConfig<SslConfig>, user_mana
         let inbound = UdpSocket::bind(format!("{}:{}", config.host, config.port)).await?;
         let (tx, mut rx) = mpsc::channel::<(BytesMut, Address, SocketAddr, Session<N>)>(1024);
         let ttl = Duration::from_secs(300);
-        let mut net_map: LruCache<u64, UdpAssociate<N>> = LruCache::with_expiry_duration_and_capacity(ttl, 10240);
+        // only the 2022 edition numbers its packets and names its sessions
+        let replay_protected = config.cipher.is_aead_2022();
+        let mut net_map: LruCache<AssociateKey, UdpAssociate<N>> = LruCache::with_expiry_duration_and_capacity(ttl, 10240);
         let mut cleanup_timer = time::interval(ttl);
         info!("Udp server running => {}|{}|{}:{}", config.protocol, config.cipher, config.host, config.port);
         let mut buf = [0; 0x10000];
@@ -108,12 +110,12 @@ async fn startup_udp<const N: usize>(config: &ServerConfig<SslConfig>, user_mana
                 // p_s_c
                 peer_msg = rx.recv() => {
                     if let Some((content, peer_addr, client_addr, session)) = peer_msg {
-                        net_map.get(&session.client_session_id); // keep alive
+                        net_map.get(&associate_key(replay_protected, &session, client_addr)); // keep alive
                         let mut dst = BytesMut::new();
                         if let Err(e) = SessionCodec::encode(&codec, (content, peer_addr, session), &mut dst) {
                             error!("[udp] encode failed; error={e}")
-                        } else {
-                            inbound.send_to(&dst, client_addr).await?;
+                        } else if let Err(e) = inbound.send_to(&dst, client_addr).await {
+                            error!("[udp] send to client failed; client={client_addr}, error={e}")
                         }
                     } else {
                         trace!("[udp] p_s_c channel closed");
@@ -127,13 +129,23 @@ async fn startup_udp<const N: usize>(config: &ServerConfig<SslConfig>, user_mana
                             let mut src = BytesMut::from(&buf[..len]);
                             match SessionCodec::<N>::decode(&codec, &mut src) {
                                 Ok(Some((content, peer_addr, session))) => {
-                                    let key = session.client_session_id;
-                                    if let Some(assoc) = net_map.get_mut(&key) {
-                                        assoc.try_send((content, peer_addr, session)).await?
-                                    } else {
-                                        let assoc = UdpAssociateContext::create(&session, client_addr, tx.clone()).await?;
-                                        assoc.try_send((content, peer_addr, session)).await?;
-                                        net_map.insert(key, assoc);
+                                    let key = associate_key(replay_protected, &session, client_addr);
+                                    let msg = (content, peer_addr, session);
+                                    let undelivered = match net_map.get_mut(&key) {
+                                        Some(assoc) => assoc.try_send(msg).await.err().map(|e| e.0),
+                                        None => Some(msg),
+                                    };
+                                    // no association yet, or its task has ended: one flow's failure must not stop the service
+                                    if let Some(msg) = undelivered {
+                                        net_map.remove(&key);
+                                        match UdpAssociateContext::create(&msg.2, client_addr, tx.clone(), replay_protected).await {
+                                            Ok(assoc) => {
+                                                if assoc.try_send(msg).await.is_ok() {
+                                                    net_map.insert(key, assoc);
+                                                }
+                                            }
+                                            Err(e) => error!("[udp] create association failed; client={client_addr}, error={e}"),
+                                        }
                                     }
                                 }
                                 Ok(None) => {}
@@ -153,6 +165,13 @@ async fn startup_udp<const N: usize>(config: &ServerConfig<SslConfig>, user_mana
         let context: ServerContext<N> = ServerContext::init(config, user_manager.clone())?;
         super::startup_quic(context, config, |c| Ok(PayloadCodec::from(c))).await
     }
+}
+
+/// An association belongs to one client session of one user; a legacy packet names neither, its source address stands in
+type AssociateKey = (u64, Option<[u8; 16]>, Option<SocketAddr>);
+
+fn associate_key<const N: usize>(replay_protected: bool, session: &Session<N>, client_addr: SocketAddr) -> AssociateKey {
+    (session.client_session_id, session.user.as_ref().map(|u| u.identity_hash), if replay_protected { None } else { Some(client_addr) })
 }
 
 struct UdpAssociate<const N: usize> {
@@ -182,6 +201,7 @@ struct UdpAssociateContext<const N: usize> {
     server_session_id: u64,
     server_packet_id: u64,
     user: Option<Arc<ServerUser<N>>>,
+    replay_protected: bool,
 }
 
 impl<const N: usize> UdpAssociateContext<N> {
@@ -189,6 +209,7 @@ impl<const N: usize> UdpAssociateContext<N> {
         client_session: &Session<N>,
         client_addr: SocketAddr,
         inbound: Sender<(BytesMut, Address, SocketAddr, Session<N>)>,
+        replay_protected: bool,
     ) -> anyhow::Result<UdpAssociate<N>> {
         let (sender, receiver) = mpsc::channel(1024);
 
@@ -201,7 +222,8 @@ impl<const N: usize> UdpAssociateContext<N> {
             outbound,
             server_session_id: random(),
             server_packet_id: 0,
-            user: None,
+            user: client_session.user.clone(),
+            replay_protected,
         };
         let task = tokio::spawn(async move { assoc.relay(receiver).await });
         Ok(UdpAssociate { task, sender })
@@ -247,17 +269,17 @@ impl<const N: usize> UdpAssociateContext<N> {
                                 Ok(addr) => addr,
                                 Err(e) => {
                                     error!("[udp] DNS resolve failed; peer={peer_addr}, error={e}");
-                                    break;
+                                    continue;
                                 },
                             };
                             if !self.validate_packet_id(session.packet_id) {
-                                error!("[udp] packet_id {} out of window; client={}, peer={}", session.packet_id, self.client_addr, peer_addr);
-                                break;
+                                // a duplicate or stale packet is dropped; the session goes on
+                                warn!("[udp] packet_id {} out of window; client={}, peer={}", session.packet_id, self.client_addr, peer_addr);
+                                continue;
                             }
-                            self.user.clone_from(&session.user);
                             if let Err(e) = self.outbound.send_to(&content, resolved_addr).await {
                                 error!("[udp] send peer failed; client={}, peer={}/{}, error={}", self.client_addr, peer_addr, resolved_addr, e);
-                                break;
+                                continue;
                             }
                         }
                         None => {
@@ -271,7 +293,7 @@ impl<const N: usize> UdpAssociateContext<N> {
     }
 
     fn validate_packet_id(&mut self, packet_id: u64) -> bool {
-        self.client_session_filter.validate_packet_id(packet_id, u64::MAX)
+        !self.replay_protected || self.client_session_filter.validate_packet_id(packet_id, u64::MAX)
     }
 }
 
